@@ -145,6 +145,14 @@ for n in range(0, 4):
                                    "ldb_blockgen_size_estimate"],
                         desc="built block parses with the reference LevelDB block reader to exactly the added entries; restart array, shared-prefix lengths, size estimate",
                         bounds="%d entries, key lengths %s (symbolic bytes, strictly increasing), value lengths %s, restart interval %d, %d entries before a reset" % (n, ks, vs[:n], r, pre))
+# four entries: the smallest block in which a wrongly re-armed restart counter shows (interval 2: restarts at 0 and 2 only)
+for (ks, r, tier) in (((1, 1, 1, 1), 2, "quick"), ((2, 1, 2, 3), 2, "thorough"), ((1, 2, 3, 3), 3, "thorough"), ((3, 3, 3, 3), 2, "thorough")):
+    vs4 = (1, 0, 1, 0)
+    add("a.blockgen-" + blk_name(4, r, 0, ks, vs4), "C16/block.c", real=BLK_REAL, kit=KITX,
+        defs=blk_defs(0, 4, r, 0, ks, vs4), unwind=40, unwindset=BLK_UW, tier=tier, cost=200, timeout=600 if tier == "quick" else 1800,
+        functions=["ldb_blockgen_init", "ldb_blockgen_add", "ldb_blockgen_finish", "ldb_blockgen_size_estimate"],
+        desc="built block parses with the reference LevelDB block reader to exactly the added entries; restart array, shared-prefix lengths, size estimate",
+        bounds="4 entries, key lengths %s (symbolic bytes, strictly increasing), value lengths %s, restart interval %d" % (ks, vs4, r))
 
 BLKIT_REAL = BLK_REAL + ["table/iterator.c"]
 BLKIT_UW = dict(BLK_UW)
